@@ -1,8 +1,8 @@
 (* C01 (expression-lowering slice) - syntax.
    Source side: the checked AST of crates/samlang-ast/src/source.rs `expr::E`, the forms that
    `ExpressionLoweringManager::lower` (crates/samlang-compiler/src/hir_lowering.rs 205-239) dispatches on,
-   without Match, `if let`, Lambda and `let` with a structured pattern (outside this slice; Match / patterns
-   are C01pat's).  What the lowering reads of the types is made explicit in the term:
+   without Match, `if let` and `let` with a nested / object pattern (outside this slice; Match / patterns are
+   C01pat's).  What the lowering reads of the types is made explicit in the term:
      * a call carries `void` = "the type of the call expression is unit" (lower_fn_call, is_void_return);
      * a method access / call carries the HIR function name create_hir_function_name computes from the type of the
        receiver; a tuple carries the class whose `init` is called;
@@ -20,8 +20,10 @@ Notation str := (list N) (only parsing).
 
 (* HIR function names.  FInit c: the constructor `init` of the struct class c (lower_constructors: its body is
    one StructInit of its parameters; tuples are instances of such classes).  FConcat: Str.concat of the runtime
-   library (what `::` is lowered to).  FUser: every other function; answered by the world. *)
-Inductive fname := FUser (f : N) | FInit (c : N) | FConcat.
+   library (what `::` is lowered to).  FUser: every other function; answered by the world.  FLam l: the synthetic function made for the lambda expression l
+   (create_synthetic_lambda_function); also answered by the world - that it behaves like the body is a theorem about
+   Lower.lambda_fn. *)
+Inductive fname := FUser (f : N) | FInit (c : N) | FConcat | FLam (l : N).
 
 Inductive unop := UNot | UNeg.
 
@@ -44,6 +46,10 @@ Inductive expr :=
 | ETuple (c : N) (es : exprs)
 | EIf (c : expr) (e1 e2 : expr)                 (* IfElse with an Expression condition; e1 is a block, e2 a block or an if *)
 | EBlock (b : blk)
+| ELambda (l : N) (caps : list name) (params : list name) (body : expr)
+                                                (* Lambda: l identifies the expression (the tie gives it the number of
+                                                   its synthetic function); caps = the keys of `captured` in the order
+                                                   the lowering iterates them, `this` written `_this` *)
 with exprs :=
 | ENil
 | ECons (e : expr) (es : exprs)
@@ -51,6 +57,10 @@ with blk :=                                     (* the statements of a block and
 | BEndU                                         (* no final expression: unit *)
 | BEndE (e : expr)
 | BLet (x : option name) (e : expr) (b : blk)   (* `let x = e;` (Some x) / `let _ = e;` (None) *)
+| BLetT (bs : list name) (els : list (option name)) (e : expr) (b : blk)
+                                                (* `let (p0, .., pm) = e;` with every p a variable or `_`;
+                                                   bs = the keys of pattern.bindings() in the order the lowering
+                                                   iterates them (a BTreeMap) *)
 | BExp (e : expr) (b : blk).                    (* `e;` *)
 
 Scheme expr_mind := Induction for expr Sort Prop
@@ -86,6 +96,7 @@ Inductive hstmt :=
 | HDecl (x : name)                                                (* LateInitDeclaration *)
 | HAssign (x : name) (e : hexpr)                                  (* LateInitAssignment *)
 | HClosure (x : name) (f : fname) (ctx : hexpr)                   (* ClosureInit *)
+| HStruct (x : name) (es : list hexpr)                            (* StructInit (the context of a lambda) *)
 | HUnreachable.          (* the lowering itself panics here (`unwrap()` on a callee that is not a variable) *)
 
 (* ------------------------------------------------------------------ names bound inside an expression *)
@@ -102,6 +113,7 @@ Fixpoint bv (e : expr) : list name :=
   | ETuple _ es => bvs es
   | EIf c e1 e2 => bv c ++ bv e1 ++ bv e2
   | EBlock b => bvb b
+  | ELambda _ _ _ _ => []          (* the body is lowered by a manager of its own: nothing reaches the enclosing scopes *)
   end
 with bvs (es : exprs) : list name :=
   match es with ENil => [] | ECons e t => bv e ++ bvs t end
@@ -110,6 +122,7 @@ with bvb (b : blk) : list name :=
   | BEndU => []
   | BEndE e => bv e
   | BLet x e b => bv e ++ (match x with Some x => [x] | None => [] end) ++ bvb b
+  | BLetT bs _ e b => bv e ++ bs ++ bvb b
   | BExp e b => bv e ++ bvb b
   end.
 
@@ -129,6 +142,7 @@ Fixpoint ns (D : list name) (e : expr) : Prop :=
   | ETuple _ es => nss D es
   | EIf c e1 e2 => ns D c /\ ns D e1 /\ ns D e2
   | EBlock b => nsb D b
+  | ELambda _ _ _ _ => True        (* the body has its own statement: nsL *)
   end
 with nss (D : list name) (es : exprs) : Prop :=
   match es with ENil => True | ECons e t => ns D e /\ nss D t end
@@ -138,10 +152,19 @@ with nsb (D : list name) (b : blk) : Prop :=
   | BEndE e => ns D e
   | BLet (Some x) e b => ns D e /\ ~ In x D /\ nsb (x :: D) b
   | BLet None e b => ns D e /\ nsb D b
+  | BLetT bs els e b =>
+      (* the keys are distinct, are exactly the variables of the pattern, and none is visible *)
+      ns D e /\ NoDup bs /\ (forall x, In (Some x) els <-> In x bs) /\ (forall x, In x bs -> ~ In x D) /\ nsb (bs ++ D) b
   | BExp e b => ns D e /\ nsb D b
   end.
 
+(* the name `_this` (checks/c01_expr.py numbers it 0) *)
+Definition this_name : name := 0%N.
+
 Definition memb (x : name) (l : list name) : bool := existsb (N.eqb x) l.
+Fixpoint nodupb (l : list name) : bool := match l with [] => true | x :: t => negb (memb x t) && nodupb t end.
+Definition el_names (els : list (option name)) : list name :=
+  flat_map (fun el => match el with Some x => [x] | None => [] end) els.
 
 Fixpoint nsB (D : list name) (e : expr) : bool :=
   match e with
@@ -155,6 +178,7 @@ Fixpoint nsB (D : list name) (e : expr) : bool :=
   | ETuple _ es => nssB D es
   | EIf c e1 e2 => nsB D c && nsB D e1 && nsB D e2
   | EBlock b => nsbB D b
+  | ELambda _ _ _ _ => true
   end
 with nssB (D : list name) (es : exprs) : bool :=
   match es with ENil => true | ECons e t => nsB D e && nssB D t end
@@ -164,5 +188,8 @@ with nsbB (D : list name) (b : blk) : bool :=
   | BEndE e => nsB D e
   | BLet (Some x) e b => nsB D e && negb (memb x D) && nsbB (x :: D) b
   | BLet None e b => nsB D e && nsbB D b
+  | BLetT bs els e b =>
+      nsB D e && nodupb bs && forallb (fun x => memb x bs) (el_names els) && forallb (fun x => memb x (el_names els)) bs &&
+      forallb (fun x => negb (memb x D)) bs && nsbB (bs ++ D) b
   | BExp e b => nsB D e && nsbB D b
   end.
